@@ -76,7 +76,7 @@ Proof. exact instances_agree_leaf_cons. Qed.
         i.e. to the last iteration), order, types, signs, limits) ARE the exported constraint list the theorems above are about ---- *)
 From DK.Model Require Import Tree ConOps.
 From DK.Gen Require Import Constraints.
-From DK.Proofs Require Import GenConstraints.
+From DK.Proofs Require Import GenLeafConstraints.
 Theorem C03_source_device_constraints : forall (A : Type) (NA : Num A) n (cbs : list (cbound A)), Device_constraints n cbs = cb_cons n cbs.
 Proof. intros A NA. exact (@gen_device_constraints A NA). Qed.
 Theorem C03_source_sdevice_constraints : forall (q : sparams R) n bnd cbs,
